@@ -95,7 +95,8 @@ def r09_2(ctx):
     if "y0" not in params:
         raise AnalysisError("forward no longer has a `y0` parameter", where=astq.loc(fwd))
     n_nontensor = params.index("y0")
-    # the two apply sites
+    # the two apply sites, compared by *value*: both entry points are evaluated abstractly with a distinct symbol /
+    # constant per role, so a value found in the wrong position is a mis-binding whatever the variables are called
     sites = []
     for f in (model.func(ADJOINT, "sdeint_adjoint"), bwd):
         for c in astq.calls(f):
@@ -103,40 +104,58 @@ def r09_2(ctx):
                 sites.append((f, c))
     if len(sites) != 2:
         raise AnalysisError(f"expected two .apply sites, found {len(sites)}", where=ADJOINT)
-    for f, c in sites:
-        pos = [a for a in c.args if not isinstance(a, ast.Starred)]
-        star = [a for a in c.args if isinstance(a, ast.Starred)]
-        ok_n = len(pos) == len(params) and len(star) == 2
+
+    def same(a, b):
+        if isinstance(b, str) and b.startswith("obj:"):
+            return getattr(a, "name", None) == b[4:]
+        if isinstance(a, Rat) or isinstance(b, Rat):
+            return isinstance(a, (Rat, Fraction, int)) and isinstance(b, (Rat, Fraction, int)) and nf.equal(a, b)
+        if b == "any-cat":
+            return isinstance(a, Cat)
+        return type(a) is type(b) and a == b
+
+    def show(a):
+        return str(a)[:60] if isinstance(a, (Rat, Cat)) else getattr(a, "name", repr(a))
+
+    def compare(f, c, got, want, n_star_want, tag):
         bad = []
-        for p, a in zip(params, pos):
-            txt = ast.unparse(a)
-            root = txt.replace("ctx.", "").replace("adjoint_", "")
-            accepted = {p, f"ctx.{p}", p.replace("adjoint_", ""), f"ctx.{p.replace('adjoint_', '')}"}
-            if p == "len_extras":
-                accepted = {"len(extra_solver_state)"}
-            if p == "sde" and f is bwd:
-                accepted = {"adjoint_sde"}
-            if p == "bm" and f is bwd:
-                accepted = {"reverse_bm"}
-            if p == "ts" and f is bwd:
-                accepted = {"torch.stack([-ts[i], -ts[i - 1]])"}
-            if p == "y0" and f is bwd:
-                accepted = {"aug_state"}
-            if f is bwd and p in ("method",):
-                accepted = {"ctx.adjoint_method"}
-            if f is bwd and p.startswith("adjoint_"):
-                accepted = {f"ctx.{p}"}
-            if f is bwd and p in ("dt", "dt_min"):
-                accepted = {f"ctx.{p}"}
-            if f is bwd and p == "solver":
-                accepted = {"solver"}
-            if txt not in accepted:
-                bad.append((p, txt))
-        ok_star = [ast.unparse(s.value) for s in star] == ["extra_solver_state", "adjoint_params"]
-        rep.check(ok_n and not bad and ok_star, "R09.2", astq.loc(f, c), f"{f.key}::R09.2::apply-args",
-                  f"`.apply` in {f.qualname} binds {bad if bad else ''}{'' if ok_n else f' {len(pos)} positional values to {len(params)} parameters'}"
-                  f"{'' if ok_star else ' starred ' + str([ast.unparse(s.value) for s in star])}: each forward parameter "
-                  f"must receive the value of its own role", "arguments bind by role")
+        if len(got) < len(params):
+            rep.fail("R09.2", astq.loc(f, c), f"{f.key}::R09.2::apply-args{tag}",
+                     f"`.apply` in {f.qualname} passes {len(got)} values for {len(params)} forward parameters")
+            return
+        for p, a in zip(params, got):
+            if p in want and not same(a, want[p]):
+                bad.append((p, show(a), str(want[p])))
+        ok_star = len(got) - len(params) == n_star_want
+        rep.check(not bad and ok_star, "R09.2", astq.loc(f, c), f"{f.key}::R09.2::apply-args{tag}",
+                  f"`.apply` in {f.qualname} binds (parameter, value it receives, value of its role) {bad}"
+                  f"{'' if ok_star else f'; {len(got) - len(params)} trailing tensors instead of {n_star_want}'}: each forward "
+                  f"parameter must receive the value of its own role", "arguments bind by role")
+
+    # (a) sdeint_adjoint: roles from the keyword values of R09.1's evaluation
+    if "adjoint_apply_args" not in ctx._cache:
+        r09_1(ctx)
+    aa = ctx._cache.get("adjoint_apply_args") or []
+    f_a, c_a = sites[0]
+    if len(aa) != 1:
+        raise AnalysisError(f"sdeint_adjoint reaches Function.apply {len(aa)} times in the abstract evaluation", where=astq.loc(f_a, c_a))
+    want_a = {"sde": "obj:fwd-sde", "ts": "obj:ts", "dt": nf.sym("dt", True), "bm": "obj:bm", "solver": "obj:solver",
+              "method": "midpoint", "adjoint_method": "adjoint-default", "adjoint_adaptive": True,
+              "adjoint_rtol": nf.sym("adjoint_rtol", True), "adjoint_atol": nf.sym("adjoint_atol", True),
+              "dt_min": nf.sym("dt_min", True), "len_extras": Fraction(1), "y0": nf.sym("y0")}
+    compare(f_a, c_a, aa[0], want_a, 2, "")        # one initial extra + one adjoint parameter
+    # (b) backward: every nested solve is configured from the adjoint_* settings stored on ctx
+    f_b, c_b = sites[1]
+    for saved in (False, True):
+        r = eval_backward(model, 3, saved)
+        if r["err"] is not None or not r["hooks"].applies:
+            e = r["err"]
+            raise e if isinstance(e, AnalysisError) else AnalysisError(f"backward pass could not be evaluated: {e}", where=astq.loc(f_b, c_b))
+        want_b = {"sde": "obj:adjoint_sde", "ts": "any-cat", "dt": nf.sym("dt", True), "bm": "obj:reverse_bm",
+                  "solver": "obj:adj-solver", "method": "midpoint", "adjoint_method": "midpoint", "adjoint_adaptive": False,
+                  "adjoint_rtol": nf.sym("adjoint_rtol", True), "adjoint_atol": nf.sym("adjoint_atol", True),
+                  "dt_min": nf.sym("dt_min", True), "len_extras": Fraction(1 if saved else 0), "y0": "any-cat"}
+        compare(f_b, c_b, r["hooks"].applies[0], want_b, (1 if saved else 0) + 1, f"::saved={saved}")
     # backward: leading Nones
     rets = [n for n in own_nodes(bwd.node) if isinstance(n, ast.Return)]
     ok = len(rets) == 1 and isinstance(rets[0].value, ast.Tuple)
